@@ -201,10 +201,45 @@ class Check:
             raise RuntimeError(f"harness stream {stream} failed (rc={rc}): {out[-2000:]}")
         if not driver:
             return (open(f"{d}/{stream}.in").read().splitlines(), open(f"{d}/{stream}.go").read().splitlines(), [])
-        with open(f"{d}/{stream}.in") as fin, open(f"{d}/{stream}.lean", "w") as fout:
-            p = subprocess.run([f"{LEAN}/.lake/build/bin/{exe}"], stdin=fin, stdout=fout, stderr=subprocess.PIPE, text=True, timeout=timeout)
-        if p.returncode != 0:
-            raise RuntimeError(f"Lean driver failed on stream {stream}: {p.stderr[-2000:]}")
+        if exe == "driver" and stream.startswith("cpu-"):
+            # every line of a whole-CPU stream is an independent case (the driver keeps no state between `run` lines): the
+            # input is cut into contiguous shards, one driver process per shard, outputs concatenated in order
+            lines = open(f"{d}/{stream}.in").read().splitlines(keepends=True)
+            n = max(1, min(os.cpu_count() or 4, 16, len(lines) // 8 or 1))
+            size = (len(lines) + n - 1) // n
+            procs = []
+            for k in range(n):
+                part = lines[k * size:(k + 1) * size]
+                if not part:
+                    continue
+                with open(f"{d}/{stream}.in.{k}", "w") as f:
+                    f.writelines(part)
+                fin = open(f"{d}/{stream}.in.{k}")
+                fout = open(f"{d}/{stream}.lean.{k}", "w")
+                procs.append((k, fin, fout, subprocess.Popen([f"{LEAN}/.lake/build/bin/{exe}"], stdin=fin, stdout=fout, stderr=subprocess.PIPE, text=True)))
+            errs = []
+            for k, fin, fout, p in procs:
+                try:
+                    _, err = p.communicate(timeout=timeout)
+                except subprocess.TimeoutExpired:
+                    p.kill()
+                    err = "timeout"
+                fin.close()
+                fout.close()
+                if p.returncode != 0:
+                    errs.append(err or f"exit {p.returncode}")
+            with open(f"{d}/{stream}.lean", "w") as out:
+                for k, _, _, _ in procs:
+                    out.write(open(f"{d}/{stream}.lean.{k}").read())
+                    os.remove(f"{d}/{stream}.lean.{k}")
+                    os.remove(f"{d}/{stream}.in.{k}")
+            if errs:
+                raise RuntimeError(f"Lean driver failed on stream {stream}: {errs[0][-2000:]}")
+        else:
+            with open(f"{d}/{stream}.in") as fin, open(f"{d}/{stream}.lean", "w") as fout:
+                p = subprocess.run([f"{LEAN}/.lake/build/bin/{exe}"], stdin=fin, stdout=fout, stderr=subprocess.PIPE, text=True, timeout=timeout)
+            if p.returncode != 0:
+                raise RuntimeError(f"Lean driver failed on stream {stream}: {p.stderr[-2000:]}")
         return (open(f"{d}/{stream}.in").read().splitlines(),
                 open(f"{d}/{stream}.go").read().splitlines(),
                 open(f"{d}/{stream}.lean").read().splitlines())
